@@ -350,6 +350,17 @@ class Runner:
         k = op["op"]
         if k == "load":
             code = self.script_code(op["script"])
+            if self.opts.get("via_file"):
+                # the documented file route: load_script_from_file is load_script_from_string on the file's text
+                import tempfile
+                fd, path = tempfile.mkstemp(suffix=".py", dir=os.path.join(os.path.dirname(os.path.dirname(os.path.abspath(__file__))), "work"))
+                try:
+                    with os.fdopen(fd, "w", encoding="utf-8") as f:
+                        f.write(code)
+                    self.yps[op["e"] - 1].load_script_from_file(path, overwrite=op["ow"])
+                finally:
+                    os.unlink(path)
+                return {"k": "ok"}
             self.yps[op["e"] - 1].load_script_from_string(code, overwrite=op["ow"])
             return {"k": "ok"}
         if k == "loadfail":
